@@ -14,7 +14,7 @@ PROP = dict(
         dict(name="unary", pkg="c01", run="^TestC01_Unary$", shards=FIELDS, checks=(4000, 60000)),
         dict(name="binary", pkg="c01", run="^TestC01_Binary$", shards=FIELDS, checks=(6000, 80000)),
         dict(name="vector", pkg="c01", run="^TestC01_Vector$", shards=FIELDS, checks=(700, 10000)),
-        dict(name="regress", pkg="c01", run="^TestC01_Regress$", rapid=False),
+        dict(name="regress", pkg="c01", run="^TestC01_Regress", rapid=False),
         # the property quantifies over configurations: the portable (purego) code paths are decided here too
         # (C09 additionally runs these suites with ADX / AVX-512 switched off and compares all variants live)
         dict(name="unary-purego", pkg="c01", run="^TestC01_Unary$", tags="purego", shards=FIELDS, checks=(2500, 40000)),
